@@ -96,6 +96,10 @@ def cases(tier, seed):
             for pcid in (1, 3, 5):
                 yield dict(code=0x0001, dsize=70, maxlen=46, comp='all', kmax=kmax, mode=mode,
                            state=st, seed=seed, pcid=pcid)
+                if st == 'Sta6':
+                    # the same while the local user keeps handing over outgoing messages
+                    yield dict(code=0x0001, dsize=70, maxlen=46, comp='seeded', mode=mode,
+                               state=st, seed=seed, pcid=pcid, duplex=True)
     n = 800 if tier == 'quick' else 40000
     for i in range(n):
         code, has_data = rnd.choice(shapes)
@@ -111,7 +115,7 @@ def cases(tier, seed):
             fault = [rnd.choice(['ENOSPC', 'EIO']), rnd.randint(1, 6)]
         yield dict(code=code, dsize=dsize, maxlen=maxlen, comp='seeded', mode=mode,
                    state=rnd.choice(['Sta6', 'Sta6', 'Sta7']), seed=seed * 100003 + i, fault=fault,
-                   pcid=rnd.choice([1, 3, 5]))
+                   pcid=rnd.choice([1, 3, 5]), duplex=rnd.random() < 0.3)
 
 
 def run_case(case):
@@ -250,6 +254,20 @@ def _one(case, comp, fields, cmd, data, pdvs, pcid, rnd):
             for pdv in group:
                 if ref.feed(pdv) is not None:
                     expect_done = True
+            out_raws = []
+            if case.get('duplex') and case['state'] == 'Sta6' and not case.get('fault'):
+                # full duplex: the local user hands over an outgoing message (a generator of
+                # P-DATA-TF PDUs, as Association.send does) right before the peer's next PDU
+                # arrives, so both are pending in the same turns of the provider loop
+                from .. import lib
+                objs = []
+                for j in range(3):
+                    payload = b'OUT-%03d-%d-' % (gi, j) + b'o' * (4 + 2 * j)
+                    objs.append((5, 2 if j == 2 else 0, payload))
+                    out_raws.append(rc.enc_pdata([objs[-1]]))
+                rig.wire_take()
+                wire_mark = len(rig.wire_bytes)
+                rig.user((lib.pdata([o]) for o in objs))
             # seeded segmentation of this PDU
             cuts = sorted(rnd.sample(range(1, len(raw)), min(rnd.choice([0, 0, 1, 2]), len(raw) - 1)))
             prev = 0
@@ -263,6 +281,16 @@ def _one(case, comp, fields, cmd, data, pdvs, pcid, rnd):
             if rig.loop_dead():
                 v('loop-died exc=%s' % (type(rig.task.exc).__name__ if rig.task.exc else '-'), '')
                 return _ret(rig, viol, {})
+            if out_raws:
+                rig.wire_take()
+                sent = rig.wire_bytes[wire_mark:]
+                if sent != b''.join(out_raws):
+                    got_p, _rem = rc.parse_stream(sent)
+                    v('outgoing-message-damaged-by-incoming-traffic',
+                      'queued %d PDUs (%d bytes), wire has %r (%d bytes)' % (
+                          len(out_raws), len(b''.join(out_raws)), [p_['kind'] for p_ in got_p],
+                          len(sent)))
+                    break
             if fsobj.fail_write_at is not None and fsobj.nwrites >= fsobj.fail_write_at:
                 faulted = True
             if faulted:
